@@ -44,12 +44,14 @@ ANCHORS = [
 RULE = (
     "random statement recipes over two tables: SELECT with binds in the column list / WHERE / GROUP BY+HAVING / "
     "ORDER BY / LIMIT+OFFSET, CTE, scalar and IN subqueries, UNION, INSERT..VALUES(+scalar subquery)..RETURNING "
-    "(insertmanyvalues numbering), INSERT from SELECT, UPDATE/DELETE..RETURNING; anonymous binds (named after "
+    "(also compiled as for executemany, so that insertmanyvalues is active and numeric numbers the binds outside "
+    "VALUES first), INSERT from SELECT, UPDATE/DELETE..RETURNING; anonymous binds (named after "
     "columns x, x_1, y), explicit names from a pool that needs escaping (% ( ) : [ ] . blank) and that collides "
     "after escaping or after expansion, repeated binds (same object twice), expanding IN of length 0..4 (also "
-    "literal_execute), literal_execute scalars, values overridden at execute(); plus dedicated families for the three "
-    "defective regions (escape collision, expanded-name collision, literal_execute with an escaped name) and for a "
-    "scalar passed to an expanding bind.  Each case is run under all six paramstyles.  non-trivial = the statement "
+    "literal_execute), literal_execute scalars, values overridden at execute(); plus dedicated families for the four "
+    "defective regions (escape collision - also with an expanding / literal_execute partner, expanded-name collision, "
+    "literal_execute with an escaped name, one name used with and without literal_execute) and for a scalar passed to "
+    "an expanding bind.  Each case is run under all six paramstyles.  non-trivial = the statement "
     "has >= 3 bind occurrences and (a repeated bind, or an expanding/literal_execute bind, or a name needing escaping, "
     "or bind_names order different from text order)"
 )
@@ -64,7 +66,8 @@ TRUSTED = [
     "render_literal_value of the bind's type (Section variable lit) and the dialect's empty-set expression are opaque",
 ]
 ASSUMPTIONS = [
-    "one BindParameter object per bind name (same-name distinct objects with different literal_execute flags are outside)",
+    "two BindParameter objects with one name carry the same value (SQLAlchemy treats them as one parameter); if only one "
+    "of them is literal_execute the case is outside the guard (refuted, known finding)",
     "bind values are integers / lists of integers; types without bind processors, bind_expression or bind casts",
     "text between placeholders contains no text that itself looks like a placeholder (C06 finding "
     "C06-bind-pattern-in-name-positional covers that)",
@@ -76,7 +79,8 @@ LEVEL_TEXT = (
     "binds distinct, expanded names fresh, literal_execute names not escaped, values of the right shape) the "
     "(statement, parameters) pair handed to the driver inlines to exactly the statement with every bind replaced by "
     "its own value; positiontup is the text order of binds; numeric placeholders are a contiguous 1..n numbering; "
-    "three refutations outside the guard (wrong value delivered silently / AssertionError / KeyError)."
+    "refutations outside the guard with concrete witnesses (wrong value delivered silently under every paramstyle, "
+    "AssertionError, KeyError, placeholder without parameter)."
 )
 LEVEL_NOTE = (
     "Trusted: Coq kernel; the hand transcription (source pin + six-paramstyle correspondence through real engines); "
@@ -330,6 +334,9 @@ def gen_recipe(rng, kind=None, pool=None):
         R["vy"] = _gen_crit(rng, R, 1) if rng.random() < 0.6 else None   # scalar subquery criterion
         R["vyadd"] = ["b", _gen_bind(rng, R)]
         R["ret"] = _gen_expr(rng, R, 1) if rng.random() < 0.8 else None
+        # compiled the way an executemany() would (insertmanyvalues active: numeric numbers the binds outside
+        # VALUES first), then run with a single parameter set
+        R["many"] = int(rng.random() < 0.6)
     elif kind == "insert_sel":
         R["cols"] = [_gen_expr(rng, R, 1), _gen_expr(rng, R, 1)]
         R["where"] = _gen_crit(rng, R, 1)
@@ -529,7 +536,7 @@ def derive_one(R):
     d = sqlite.dialect(paramstyle="numeric")
     d.statement_compiler = _rec_compiler()
     try:
-        c = stmt.compile(dialect=d)
+        c = stmt.compile(dialect=d, for_executemany=bool(R.get("many")))
     except Exception as e:  # CompileError for conflicting bind names etc.
         return {"err": "%s: %s" % (type(e).__name__, str(e)[:200])}
     rec = c.__dict__.get("_c04_rec", [])
@@ -781,7 +788,17 @@ def impl(c):
         try:
             with _ENG[ps].connect() as conn:
                 del _CAP[:]
-                conn.execute(stmt, params) if params else conn.execute(stmt)
+                if R.get("many"):
+                    # what Connection._execute_clauseelement does, with the statement compiled for executemany
+                    dialect = _ENG[ps].dialect
+                    comp = stmt.compile(dialect=dialect, for_executemany=True)
+                    dist = [params] if params else []
+                    opts = stmt._execution_options.merge_with(conn._execution_options, {})
+                    conn._execute_context(dialect, dialect.execution_ctx_cls._init_compiled, comp, dist, opts, comp, dist, stmt, None)
+                elif params:
+                    conn.execute(stmt, params)
+                else:
+                    conn.execute(stmt)
             if len(_CAP) != 1:
                 obs.append([8, len(_CAP)])
                 continue
